@@ -111,6 +111,7 @@ func init() {
 	replayers["tmpl.prefix.url"] = func(a []string) string { return c14PrefixURL(a[0]) }
 	replayers["tmpl.prefix.tru"] = func(a []string) string { return c14PrefixTRU(a[0]) }
 	replayers["tmpl.prefix.decode"] = func(a []string) string { return c14PrefixDecode(a[0]) }
+	replayers["tmpl.link"] = func(a []string) string { return lastOf(runLinesStr(a[3])) }
 	replayers["tmpl.urlattr"] = func(a []string) string { return c14URLAttr(a[0], a[1], a[2], a[3]) }
 	generators["C14"] = genC14
 }
@@ -296,4 +297,33 @@ func genC14(c *Ctx) {
 		d := c.randFrom(c14DataPieces, 4)
 		tmpl(p, d, "seeded-tmpl")
 	}
+	// <link rel=R href="P{{.}}">: the sanitization context of href depends on rel (TrustedResourceURL unless rel names a
+	// plain-URL relation). Many templates in ONE process, same prefix under different rels in both orders, so that
+	// anything remembered per (element, attribute, prefix) across analyses shows up. Compared with the template
+	// model (op tmpl.hist.C14: fresh set, Parse, Execute).
+	linkRels := []string{"stylesheet", "icon", "alternate", "", "author", "alternate stylesheet", "preload", "STYLESHEET"}
+	linkPrefixes := []string{"/assets/v1/", "/assets/v1/.", "https://cdn.example/x/", "/p?q=", "//cdn.example/a/", "/a/%2e", "x", "/assets/"}
+	linkData := []string{".", "..", "a/b", "x.css", "%2e", "a&b=c#d"}
+	{
+		for _, p := range linkPrefixes {
+			rels := append([]string{}, linkRels...)
+			c.rng.Shuffle(len(rels), func(i, j int) { rels[i], rels[j] = rels[j], rels[i] })
+			for _, rel := range rels {
+				text := "<link rel=\"" + rel + "\" href=\"" + p + "{{.}}\">"
+				if rel == "" {
+					text = "<link href=\"" + p + "{{.}}\">"
+				}
+				hb := newHistBuilder()
+				hb.add(Step{Op: "new", H: 0, Name: "root"})
+				if hb.add(Step{Op: "parse", H: 0, Text: text}) == "" {
+					continue
+				}
+				d := pick(c, linkData)
+				hb.lastData = d
+				r := hb.add(Step{Op: "exec", H: 0, Data: &Val{Kind: "s", S: d}})
+				c.emit("tmpl.link", []string{rel, p, hb.lastData, hb.hist()}, r, strings.HasPrefix(r, "ok"), "link-rel")
+			}
+		}
+	}
+
 }
